@@ -623,6 +623,22 @@ From Verif.Model Require Import Result Lexer Parser Eval EvalSpec ParserStateCb 
 Import ListNotations.
 Open Scope Z_scope.
 Definition eps : Q := Qmake 1 1000000000%positive.
+(* values: relative 1e-9, or both below the smallest normal double (the implementation's floats underflow to 0) *)
+Definition tiny2 : Q := Qmake 1 (10 ^ 560)%positive.
+Definition cclose_u (a b : cplx) : bool :=
+  cclose eps a b || Qle_bool (cnorm2 (mkC (re a - re b) (im a - im b))) tiny2 && Qle_bool (cnorm2 a) tiny2 && Qle_bool (cnorm2 b) tiny2.
+Fixpoint val_close_u (a b : val) : bool :=
+  match a, b with
+  | VS x, VS y => cclose_u x y
+  | VA k, VA l =>
+      (fix go (k l : list val) : bool :=
+         match k, l with
+         | [], [] => true
+         | x :: k', y :: l' => val_close_u x y && go k' l'
+         | _, _ => false
+         end) k l
+  | _, _ => false
+  end.
 Definition berr_eqb (a b : bracket_error) :=
   match a, b with CloseWithoutOpen, CloseWithoutOpen | WrongCloser, WrongCloser | OpenWithoutClose, OpenWithoutClose => true
   | _, _ => false end.
@@ -660,7 +676,7 @@ Definition view_agree0 (v : view) (i : iview) : Z :=
   | VP (VErr e), IPErr e' => if perr_eqb e e' then 0 else 1
   | VE EvNan, INan nm d => if names_empty nm && (d =? 0)%nat then 0 else 1
   | VE (EvVal v nm d), IVal ov nm' d' =>
-      if names_same nm nm' && (d =? d')%nat && match ov with Some w => val_close eps v w | None => true end then 0 else 1
+      if names_same nm nm' && (d =? d')%nat && match ov with Some w => val_close_u v w | None => true end then 0 else 1
   | VE (EvPErr e), IPErr e' => if perr_eqb e e' then 0 else 1
   | VE EvTooManyDims, IDims => 0
   | VE (EvErr e), IErr e' => if declines e then 3 else if everr_class e e' then 0 else 1
@@ -877,6 +893,7 @@ def check_histories(res, seqs, results, stats):
                                           'author\'s answer is the same string (evaluated just before through the shared parser)'
                                           % (show_call(c), a, show_call(twin), b)})
     origs = list(ORIG) if len(ORIG) == len(seqs) else seqs
+    mismatches = []
     for sq, (out, changed), orig in zip(seqs, results, origs):
         for i, (call, o) in enumerate(zip(sq, out)):
             res.oracle_evals += 1
@@ -886,29 +903,10 @@ def check_histories(res, seqs, results, stats):
                 break
             if got != want:
                 steps = original_prefix(orig, o[4]) + ([call] if orig[o[4]][0] == 'consumer' and call[0] != 'consumer' else [])
-                # a history of one call cannot depend on itself: that is interference from outside (other histories of the
-                # worker), the business of the perturb-then-probe stage.  Confirmations cost a pool start each: at most three
-                # per distinct call, none once a handful of witnesses exists.
-                tried = stats.setdefault('confirmations_per_call', {})
                 n_steps = len([c for c in steps if c[0] not in ('edit', 'newparser')])
-                if n_steps >= 2 and tried.get(call, 0) < 10 and stats.get('confirmed', 0) < 6 and stats.get('confirmations', 0) < 200:
-                    tried[call] = tried.get(call, 0) + 1
-                    stats['confirmations'] = stats.get('confirmations', 0) + 1
-                    conf = confirm_pristine(steps)
-                else:
-                    conf = None
-                if conf is None:
-                    # not reproducible from a pristine library state: something outside this history interfered (earlier
-                    # histories in the same worker); the perturb-then-probe stage looks for such leaks with their cause
-                    stats['mismatches_not_confirmed_in_pristine_state'] = stats.get('mismatches_not_confirmed_in_pristine_state', 0) + 1
-                    break
-                jj, ecall, cgot, cwant = conf
-                stats['confirmed'] = stats.get('confirmed', 0) + 1
-                res.witnesses.append({
-                    'key': 'history:%s' % '|'.join(show_call(c) for c in steps), 'kind': 'history',
-                    'calls': [list(c) for c in steps],
-                    'what': 'after this history %s gives %r; alone, on a new parser in a pristine library state, it gives %r'
-                            % (show_call(ecall), cgot, cwant)})
+                # did the history touch the same string before?  (the first thing the property names)
+                same = any(c is not steps[-1] and len(c) > 1 and c[1] == call[1] for c in steps[:-1])
+                mismatches.append((0 if same else 1, n_steps, len(mismatches), steps, call))
                 break
             stats['outcomes'][got[0] if got[0] != 'exc' else 'exc:' + got[1]] += 1
         if changed is not None:
@@ -918,6 +916,27 @@ def check_histories(res, seqs, results, stats):
                 'what': 'the object returned by successful parse #%d reported %r when returned and %r after the later calls'
                         % (changed[0] + 1, changed[1], changed[2])})
         stats['sequences'] += 1
+    # Every mismatch is confirmed from a pristine library state before it is reported (the workers run many histories in one
+    # process; if something leaks OUTSIDE the parser a history may be disturbed by its predecessors -- that is the business
+    # of the perturb-then-probe stage, which finds the cause).  A history of one call cannot depend on itself.  Confirmations
+    # cost a pool start each: histories that used the same string before go first, short ones first, a few per distinct call.
+    tried = {}
+    for _prio, n_steps, _k, steps, call in sorted(mismatches, key=lambda m: m[:3]):
+        conf = None
+        if n_steps >= 2 and tried.get(call, 0) < 4 and stats.get('confirmed', 0) < 6 and stats.get('confirmations', 0) < 150:
+            tried[call] = tried.get(call, 0) + 1
+            stats['confirmations'] = stats.get('confirmations', 0) + 1
+            conf = confirm_pristine(steps)
+        if conf is None:
+            stats['mismatches_not_confirmed_in_pristine_state'] = stats.get('mismatches_not_confirmed_in_pristine_state', 0) + 1
+            continue
+        jj, ecall, cgot, cwant = conf
+        stats['confirmed'] = stats.get('confirmed', 0) + 1
+        res.witnesses.append({
+            'key': 'history:%s' % '|'.join(show_call(c) for c in steps), 'kind': 'history',
+            'calls': [list(c) for c in steps],
+            'what': 'after this history %s gives %r; alone, on a new parser in a pristine library state, it gives %r'
+                    % (show_call(ecall), cgot, cwant)})
 
 
 # strings and, per string, names whose presence in the scope matters (variables, functions, suffixes) plus one that does not
